@@ -121,3 +121,5 @@ class SDict:
 
     def __repr__(self) -> str:
         return f"SDict({self.items})"
+
+MISSING = object()
